@@ -339,6 +339,34 @@ func (fr *frame) call(c *ssa.CallCommon, instr ssa.Value, st *state, pos string)
 	fc := vc.P.contractFor(callee)
 	if fc != nil {
 		fc.used = true
+		// thin units: the error of a decoder that is itself under a truncation contract must be inspected
+		if instr != nil && fr.fc != nil && (fr.fc.FrameOnly || fr.fc.ClaimOnly) && !fr.inline {
+			res := callee.Signature.Results()
+			if n := res.Len(); n > 0 && res.At(n-1).Type().String() == "error" {
+				forC14 := false
+				for _, p := range fc.Props {
+					if p == "C14" {
+						forC14 = true
+					}
+				}
+				used := true
+				if n == 1 {
+					if refs := instr.Referrers(); refs != nil {
+						used = false
+						for _, r := range *refs {
+							if _, isDbg := r.(*ssa.DebugRef); !isDbg {
+								used = true
+							}
+						}
+					}
+				} else {
+					used = resultUsed(instr, n-1)
+				}
+				if forC14 && !used {
+					fr.obligeHere("mustuse["+callee.Name()+"]", "", st, "false", pos)
+				}
+			}
+		}
 	}
 	switch {
 	case fc != nil && fc.Pure && !fc.Opaque, fc == nil && isWrapper(callee):
